@@ -162,7 +162,8 @@ Section Table.
   Lemma pick_true_both outer members cid fl :
     pick true outer members cid = Some fl -> exists x, fl = both outer x.
   Proof.
-    unfold OptNested.pick, pick_spec. destruct nailed; destruct (existsb _ _); try discriminate; intros H; inversion H.
+    unfold OptNested.pick, pick_spec. destruct nailed; [destruct (conforms _ _ _) | destruct (existsb _ _)];
+      try discriminate; intros H; inversion H.
     - eexists; reflexivity.
     - exists no_flags. destruct outer as [o1 o2 o3 o4]. unfold both, no_flags. cbn. now rewrite !andb_false_r.
   Qed.
@@ -249,7 +250,7 @@ Section Table.
   Proof.
     intros Hf out a0. unfold OptNested.pick. destruct nailed.
     - exists (both out no_flags). split; [|apply restrict_no_flags]. destruct spec.
-      + unfold pick_spec. cbn. rewrite Nat.eqb_refl. cbn. now rewrite Hf.
+      + unfold pick_spec, conforms. destruct (List.length ct); cbn; rewrite Nat.eqb_refl; cbn; now rewrite Hf.
       + cbn. rewrite Hf. destruct out as [o1 o2 o3 o4]. unfold both, no_flags, subflags. cbn.
         now rewrite !andb_false_r.
     - exists no_flags. cbn. rewrite Nat.eqb_refl. cbn. split; reflexivity.
@@ -366,9 +367,9 @@ Definition fld (n: string) : fplan :=
   {| p_name := n; p_alias := None; p_ty := TyOptional; p_trivial := true; p_default := DVal PNone; p_omit := false |}.
 Definition d8b_ct : list cls :=
   [ {| c_mixin := true; c_cfgd := None; c_cfg := ns_unset; c_sort := false; c_flags := fl_on;      (* 0: Outer(u: Union[A, B]) *)
-       c_fields := [({| p_name := "u"; p_alias := None; p_ty := TyPlain; p_trivial := false; p_default := DNo; p_omit := false |}, [1; 2])] |};
-    {| c_mixin := true; c_cfgd := None; c_cfg := ns_unset; c_sort := false; c_flags := fl_none; c_fields := [(fld "a", [])] |};   (* 1: A *)
-    {| c_mixin := true; c_cfgd := None; c_cfg := ns_unset; c_sort := false; c_flags := fl_on; c_fields := [(fld "b", [])] |} ]%nat.  (* 2: B *)
+       c_fields := [({| p_name := "u"; p_alias := None; p_ty := TyPlain; p_trivial := false; p_default := DNo; p_omit := false |}, [1; 2])]; c_parent := None |};
+    {| c_mixin := true; c_cfgd := None; c_cfg := ns_unset; c_sort := false; c_flags := fl_none; c_fields := [(fld "a", [])]; c_parent := None |};   (* 1: A *)
+    {| c_mixin := true; c_cfgd := None; c_cfg := ns_unset; c_sort := false; c_flags := fl_on; c_fields := [(fld "b", [])]; c_parent := None |} ]%nat.  (* 2: B *)
 Definition d8b_inst : node := NObj 0 [NObj 2 [NLeaf PNone PNone]].
 Definition d8b_kw : kwv := {| kw_on := Some true; kw_ba := None; kw_dl := None |}.
 
@@ -398,4 +399,27 @@ Theorem codec_partial : forall ct n cid dd,
   ok_h ct false n [cid] root_flags no_kw dd = true -> to_dict_codec ct false n cid dd = to_dict_codec ct true n cid dd.
 Proof.
   intros ct n cid dd Hok. unfold to_dict_codec. now rewrite (nested_project ct false n [cid] root_flags no_kw no_kw dd eq_refl Hok).
+Qed.
+
+(* ---- a field of type A holding an instance of the subclass B(A) that enabled the omit_none flag:
+   the call names the flags of the DECLARED class, so B never receives omit_none ---- *)
+Definition sub_ct : list cls :=
+  [ {| c_mixin := true; c_cfgd := None; c_cfg := ns_unset; c_sort := false; c_flags := fl_on;      (* 0: Outer(x: A) *)
+       c_fields := [({| p_name := "x"; p_alias := None; p_ty := TyPlain; p_trivial := false; p_default := DNo; p_omit := false |}, [1])];
+       c_parent := None |};
+    {| c_mixin := true; c_cfgd := None; c_cfg := ns_unset; c_sort := false; c_flags := fl_none; c_fields := [(fld "a", [])]; c_parent := None |};
+    {| c_mixin := true; c_cfgd := None; c_cfg := ns_unset; c_sort := false; c_flags := fl_on;
+       c_fields := [(fld "a", []); (fld "b", [])]; c_parent := Some 1 |} ]%nat.
+Definition sub_inst : node := NObj 0 [NObj 2 [NLeaf PNone PNone; NLeaf PNone PNone]].
+
+Lemma sub_impl : to_dict_h sub_ct false sub_inst 0 d8b_kw = Some (PDict [("x", PDict [("a", PNone); ("b", PNone)])]).
+Proof. reflexivity. Qed.
+Lemma sub_spec : to_dict_h sub_ct true sub_inst 0 d8b_kw = Some (PDict [("x", PDict [])]).
+Proof. reflexivity. Qed.
+
+Theorem subclass_flags_refuted : ~ nested_full_statement.
+Proof.
+  intros H. specialize (H sub_ct sub_inst 0%nat d8b_kw). rewrite sub_impl, sub_spec in H.
+  assert (E: Some (PDict [("x", PDict [("a", PNone); ("b", PNone)])]) = Some (PDict [("x", PDict [])])) by (apply H; discriminate).
+  discriminate E.
 Qed.
